@@ -116,6 +116,8 @@ def _fit_tree(case):
     kw = dict(max_depth=case["max_depth"], min_samples_leaf=case["min_samples_leaf"], random_state=case["rs"])
     if case.get("splitter"):
         kw["splitter"] = case["splitter"]
+    if case.get("max_leaf_nodes"):
+        kw["max_leaf_nodes"] = case["max_leaf_nodes"]          # scikit-learn then grows the tree best-first: node ids are not in prefix order
     m = cls(**kw)
     m.fit(X, y)
     return m, X
@@ -177,7 +179,7 @@ def check_tree(case):
             raise Violation("node_range:" + ("box-not-in-leaf" if inbox[i] else "leaf-not-in-box"),
                             "leaf %d range %r, point %r routed to %d" % (leaf, R.tolist(), Q64[i].tolist(), int(app[i])), facts)
     nl = len(ref_leaves)
-    labels = [case["kind"], "leaves=1" if nl == 1 else ("leaves=2" if nl == 2 else ("leaves<=6" if nl <= 6 else "leaves>6")),
+    labels = [case["kind"], "best-first" if case.get("max_leaf_nodes") else "depth-first", "leaves=1" if nl == 1 else ("leaves=2" if nl == 2 else ("leaves<=6" if nl <= 6 else "leaves>6")),
               "d=%d" % X.shape[1]]
     shape_key = dict(kind=case["kind"], feat=t.feature.tolist(), left=t.children_left.tolist(), thr=t.threshold.tolist())
     return Outcome(labels, nl >= 3, key=shape_key)
@@ -196,7 +198,8 @@ def _tree_cases(draw, tier="quick"):
         y = draw(st.lists(st.integers(-20, 20).map(lambda k: k / 2.0), min_size=n, max_size=n))
     q = draw(st.lists(st.lists(st.integers(-48, 48).map(lambda k: k / 4.0), min_size=d, max_size=d), max_size=10))
     return dict(X=X, y=y, kind=kind, max_depth=draw(st.integers(1, 6)), min_samples_leaf=draw(st.integers(1, 3)),
-                rs=draw(st.integers(0, 5)), splitter=draw(st.sampled_from(["best", "random"])), q=q)
+                rs=draw(st.integers(0, 5)), splitter=draw(st.sampled_from(["best", "random"])), q=q,
+                max_leaf_nodes=draw(st.sampled_from([None, None, 3, 5, 8, 12])))
 
 
 CLAUSES = [
